@@ -198,6 +198,26 @@ def run_during_start(out, rnd, trials):
                      nontrivial=lambda c: c["sent_while_starting"] > 0, sample=lambda c: c, classify=lambda c, i: "during-start/%d" % min(c["sent_while_starting"], 3))
 
 
+def run_clock_steps(out, rnd, n):
+    """the wall clock (not the event loop's) stands still or steps between broadcasts - forwards, and backwards as at the end of summer time
+    or after a time correction: every valid broadcast is delivered all the same (few device ids, so the same device is heard again and again)"""
+    import time_machine
+    cases = []; io = []; ex = []
+    async def go():
+        for _ in range(n):
+            np_ = rnd.randrange(1, 3); seq = []; exp = {p: [] for p in range(np_)}
+            for j in range(10):
+                p = rnd.randrange(np_); d, e = make_event(rnd, rnd.choice(list(FAMILY)), p, j + 1); seq.append((p, d)); exp[p].append(e)
+            steps = [rnd.choice([0, 0, -1, -3600, -7200, 1, 3600, -86400 * 3, 0.4]) for _ in range(10)]
+            with time_machine.travel(1_800_000_000 + rnd.randrange(10 ** 6), tick=False) as trav:
+                log, nh, nw, complete = await world.feed_bridge(np_, seq, (), c05.show, c06.sentinel, serial=True, clock_steps=(trav, steps))
+            cases.append({"ports": np_, "steps": steps})
+            io.append(per_port_view(np_, [(port_of(s_), s_) for s_ in log]) + ("" if complete else " (barrier lost)")); ex.append(per_port_view(np_, [(p, e) for p in exp for e in exp[p]]))
+    asyncio.run(go())
+    lib.differential(out, "wall-clock-standing-still-or-stepping-between-broadcasts", cases, io, None, ex,
+                     lambda c: "%d ports, the wall clock moved by %s seconds before the respective broadcast" % (c["ports"], c["steps"]), sample=lambda c: c)
+
+
 def run_with_a_port_taken(out, rnd, n):
     """another program holds one of the configured ports when the bridge is started.  Either start() refuses (the rule, C17's subject) and there
     is nothing to deliver, or the bridge runs - and then every valid broadcast on the ports it was configured with and could have is delivered"""
@@ -283,6 +303,7 @@ def run(tier, rnd, out):
     run_during_start(out, rnd, 6 if tier == "quick" else 60)
     run_unreferenced(out, rnd, 8 if tier == "quick" else 40)
     run_with_a_port_taken(out, rnd, 10 if tier == "quick" else 100)
+    run_clock_steps(out, rnd, 6 if tier == "quick" else 60)
     run_repeats(out, "repeated-datagrams-one-at-a-time", [mk_repeats(rnd, rnd.randrange(1, 4), rnd.randrange(2, 12)) for _ in range(60 if tier == "quick" else 600)])
     out.exhaustive = tier == "thorough"
 
